@@ -76,6 +76,12 @@ def function_cases(sp, rng):
     A("fourier.fft-real", lambda a: sp.fft(a), [rr(3, 4)])
     A("fourier.nufft", lambda a, c: sp.nufft(a, c), [r(6, 5), rr(7, 2) * 3])
     A("fourier.nufft_adjoint", lambda a, c: sp.nufft_adjoint(a, c, oshape=[6, 5]), [r(7), rr(7, 2) * 3])
+    # parameter values at which an internal zero-pad / crop is the identity (util.resize then returns a VIEW of the argument)
+    A("fourier.nufft-oversamp1", lambda a, c: sp.nufft(a, c, oversamp=1.0, width=3), [r(6, 5), rr(7, 2) * 3])
+    A("fourier.nufft-oversamp1-batch", lambda a, c: sp.nufft(a, c, oversamp=1, width=4), [r(2, 6), rr(5, 1) * 3])
+    A("fourier.nufft_adjoint-oversamp1", lambda a, c: sp.nufft_adjoint(a, c, oshape=[6, 5], oversamp=1.0, width=3), [r(7), rr(7, 2) * 3])
+    A("fourier.fft-oshape-same", lambda a: sp.fft(a, oshape=[3, 4]), [r(3, 4)])
+    A("fourier.ifft-oshape-same", lambda a: sp.ifft(a, oshape=[3, 4], center=True), [r(3, 4)])
     A("fourier.estimate_shape", lambda c: sp.estimate_shape(c), [rr(7, 2) * 3])
     A("fourier.toeplitz_psf", lambda c: sp.fourier.toeplitz_psf(c, [4, 4]), [rr(5, 2) * 2])
     A("thresh.soft_thresh", lambda a: sp.thresh.soft_thresh(0.3, a), [r(3, 4)])
